@@ -61,6 +61,35 @@ def hexflat(a):
     return [H(v) for v in np.asarray(a).ravel()]
 
 
+def relayout(a, layout, pad=1.0e6):
+    """The same values in a different memory layout (input construction only): views into larger arrays whose
+    other elements are `pad`, Fortran order, negative strides."""
+    a = np.ascontiguousarray(a)
+    R, C = a.shape
+    pad = a.dtype.type(pad)
+    if layout in (None, "c"):
+        return a
+    if layout == "strided_cols":
+        big = np.full((R, 2 * C), pad, dtype=a.dtype)
+        big[:, ::2] = a
+        return big[:, ::2]
+    if layout == "strided_rows":
+        big = np.full((2 * R, C), pad, dtype=a.dtype)
+        big[::2] = a
+        return big[::2]
+    if layout == "window":
+        big = np.full((R + 2, C + 3), pad, dtype=a.dtype)
+        big[1:-1, 2:-1] = a
+        return big[1:-1, 2:-1]
+    if layout == "fortran":
+        return np.asfortranarray(a)
+    if layout == "transposed":
+        return np.ascontiguousarray(a.T).T
+    if layout == "negative":
+        return np.ascontiguousarray(a[::-1, ::-1])[::-1, ::-1]
+    raise ValueError("unknown layout %r" % layout)
+
+
 def mk_area(c):
     h, w = c["shape"]
     return AreaDefinition("a", "a", "a", c["proj"], w, h, tuple(float.fromhex(s) for s in c["extent"]))
@@ -90,9 +119,16 @@ def run_ll2cr(c):
             lc, lr = area.get_array_coordinates_from_lonlat(lons.copy(), lats.copy())
         except Exception:
             lc, lr = np.full(lons.shape, np.nan), np.full(lons.shape, np.nan)
-    return {"n": int(n), "x": hexflat(x), "y": hexflat(y), "cols": hexflat(cols), "rows": hexflat(rows),
-            "own_c": hexflat(oc), "own_r": hexflat(orr), "ll_c": hexflat(lc), "ll_r": hexflat(lr),
-            "psx": H(area.pixel_size_x), "psy": H(area.pixel_size_y)}
+    res = {"n": int(n), "x": hexflat(x), "y": hexflat(y), "cols": hexflat(cols), "rows": hexflat(rows),
+           "own_c": hexflat(oc), "own_r": hexflat(orr), "ll_c": hexflat(lc), "ll_r": hexflat(lr),
+           "psx": H(area.pixel_size_x), "psy": H(area.pixel_size_y)}
+    if c.get("geo_layout", "c") != "c":
+        try:
+            n2, c2, r2 = ll2cr(SwathDefinition(relayout(lons, c["geo_layout"], 1e6), relayout(lats, c["geo_layout"], 1e6)), area, fill=fill)
+            res["layout_run"] = {"n": int(n2), "cols": hexflat(c2), "rows": hexflat(r2)}
+        except Exception as e:
+            res["layout_run"] = err(e)
+    return res
 
 
 def footprints(cols, rows, shape, rps, kw, which):
@@ -119,7 +155,8 @@ def footprints(cols, rows, shape, rps, kw, which):
     return out
 
 
-def fornav_all(cols, rows, data, dtype, rps, p, mwm, shape, fill, want_fp=True, fill_kw=True, ws_wsm=None):
+def fornav_all(cols, rows, data, dtype, rps, p, mwm, shape, fill, want_fp=True, fill_kw=True, ws_wsm=None,
+               layout="c", geo_layout="c"):
     """One-shot fornav + weights/accums + footprints + write_grid_image_single, all from the real code."""
     kw = wkw(p)
     dt = np.dtype(dtype)
@@ -132,14 +169,22 @@ def fornav_all(cols, rows, data, dtype, rps, p, mwm, shape, fill, want_fp=True, 
         pass
     a = _Shape()
     a.shape = tuple(shape)
-    try:
-        kws = dict(kw)
-        if fill_kw and not np.isnan(fill):
-            kws["fill"] = fill
-        n, out = fornav(cols.copy(), rows.copy(), a, d.copy(), rows_per_scan=rps, maximum_weight_mode=bool(mwm), **kws)
-        res["oneshot"] = {"n": int(n), "out": hexflat(out), "dtype": str(out.dtype)}
-    except Exception as e:
-        res["oneshot"] = err(e)
+    kws = dict(kw)
+    if fill_kw and not np.isnan(fill):
+        kws["fill"] = fill
+
+    def oneshot(cc, rr, dd):
+        try:
+            n, out = fornav(cc, rr, a, dd, rows_per_scan=rps, maximum_weight_mode=bool(mwm), **kws)
+            return {"n": int(n), "out": hexflat(out), "dtype": str(out.dtype)}
+        except Exception as e:
+            return err(e)
+    # the data array is handed over in the requested memory layout (same values)
+    res["oneshot"] = oneshot(cols.copy(), rows.copy(), relayout(d, layout))
+    if layout != "c":
+        res["oneshot_c"] = oneshot(cols.copy(), rows.copy(), d.copy())
+    if geo_layout != "c":
+        res["oneshot_geo"] = oneshot(relayout(cols, geo_layout, 3.0), relayout(rows, geo_layout, 3.0), d.copy())
     w = np.zeros(shape, np.float32)
     acc = np.zeros(shape, np.float32)
     pyfill = float(fill)
@@ -166,7 +211,7 @@ def run_fornav(c):
     cols, rows, data = unhex2(c["cols"]), unhex2(c["rows"]), unhex2(c["data"])
     fill = float.fromhex(c.get("fill", "nan"))
     return fornav_all(cols, rows, data, c["dtype"], int(c["rps"]), c["params"], c["mwm"], tuple(c["grid"]), fill,
-                      ws_wsm=c.get("ws_wsm"))
+                      ws_wsm=c.get("ws_wsm"), layout=c.get("layout", "c"), geo_layout=c.get("geo_layout", "c"))
 
 
 def run_scene(c):
@@ -185,33 +230,39 @@ def run_scene(c):
     x, y = t.transform(lons.copy(), lats.copy())
     n, cols, rows = ll2cr(swath, area)
     res["ll2cr"] = {"n": int(n), "x": hexflat(x), "y": hexflat(y), "cols": hexflat(cols), "rows": hexflat(rows)}
+    layout, geo_layout = c.get("layout", "c"), c.get("geo_layout", "c")
     res["fornav"] = fornav_all(cols, rows, data, dt, rps, p, mwm, area.shape, fill, want_fp=c.get("want_fp", True),
-                               ws_wsm=c.get("ws_wsm"))
+                               ws_wsm=c.get("ws_wsm"), layout=layout)
     # ---- dask
     in_rows = int(c["in_rows"])
     out_chunks = tuple(tuple(int(v) for v in ax) for ax in c["out_chunks"])
     d = np.ascontiguousarray(data.astype(dt))
     R, C = lons.shape
-    try:
-        sw = SwathDefinition(xr.DataArray(da.from_array(lons.copy(), chunks=(in_rows, C)), dims=("y", "x")),
-                             xr.DataArray(da.from_array(lats.copy(), chunks=(in_rows, C)), dims=("y", "x")))
-        rs = dask_ewa.DaskEWAResampler(sw, area)
-        kws = dict(kw)
-        if not np.isnan(fill):
-            kws["fill_value"] = fill
-        out = rs.resample(da.from_array(d.copy(), chunks=(in_rows, C)), rows_per_scan=rps, chunks=out_chunks,
-                          maximum_weight_mode=mwm, **kws)
-        res["dask"] = {"out": hexflat(out.compute()), "dtype": str(out.dtype), "chunks": [list(a) for a in out.chunks],
-                       "in_chunks": list(rs.cache["ll2cr_result"].chunks[-2]) if hasattr(rs.cache["ll2cr_result"], "chunks") else None}
-    except Exception as e:
-        res["dask"] = err(e)
+    def run_dask(lo, la, dd):
+        try:
+            sw = SwathDefinition(xr.DataArray(da.from_array(lo, chunks=(in_rows, C)), dims=("y", "x")),
+                                 xr.DataArray(da.from_array(la, chunks=(in_rows, C)), dims=("y", "x")))
+            rs = dask_ewa.DaskEWAResampler(sw, area)
+            kws = dict(kw)
+            if not np.isnan(fill):
+                kws["fill_value"] = fill
+            out = rs.resample(da.from_array(dd, chunks=(in_rows, C)), rows_per_scan=rps, chunks=out_chunks,
+                              maximum_weight_mode=mwm, **kws)
+            return {"out": hexflat(out.compute()), "dtype": str(out.dtype), "chunks": [list(a) for a in out.chunks],
+                    "in_chunks": list(rs.cache["ll2cr_result"].chunks[-2]) if hasattr(rs.cache["ll2cr_result"], "chunks") else None}
+        except Exception as e:
+            return err(e)
+    # numpy arrays behind the dask arrays in the requested memory layouts (same values)
+    res["dask"] = run_dask(relayout(lons, geo_layout, 1e6), relayout(lats, geo_layout, 1e6), relayout(d, layout))
+    if layout != "c" or geo_layout != "c":
+        res["dask_c"] = run_dask(lons.copy(), lats.copy(), d.copy())
     if c.get("legacy"):
         try:
             from pyresample.ewa import _legacy_dask_ewa
             sw = SwathDefinition(xr.DataArray(da.from_array(lons.copy(), chunks=(in_rows, C)), dims=("y", "x")),
                                  xr.DataArray(da.from_array(lats.copy(), chunks=(in_rows, C)), dims=("y", "x")))
             rs = _legacy_dask_ewa.LegacyDaskEWAResampler(sw, area)
-            out = rs.resample(da.from_array(d.copy(), chunks=(in_rows, C)), rows_per_scan=rps, maximum_weight_mode=mwm, **kw)
+            out = rs.resample(da.from_array(relayout(d, layout), chunks=(in_rows, C)), rows_per_scan=rps, maximum_weight_mode=mwm, **kw)
             res["legacy"] = {"out": hexflat(np.asarray(out.compute()))}
         except Exception as e:
             res["legacy"] = err(e)
